@@ -76,6 +76,9 @@ func refConsumed(tx *TxSpec, p Params) Bal {
 	for _, w := range tx.WdrlScript {
 		b.addCoin(w.Amount)
 	}
+	for _, w := range tx.WdrlRaw {
+		b.addCoin(w.Amount)
+	}
 	for _, c := range tx.Certs {
 		switch c.Kind {
 		case CStakeDereg, CUnreg:
